@@ -4,8 +4,6 @@ import (
 	"errors"
 	"fmt"
 	"math"
-	"strconv"
-	"strings"
 
 	"github.com/shopspring/decimal"
 	"github.com/verily-src/fhirpath-go/fhirpath/internal/expr"
@@ -29,36 +27,23 @@ func Abs(ctx *expr.Context, input system.Collection, args ...expr.Expression) (s
 		return nil, fmt.Errorf("%w: received %v arguments, expected 0", ErrWrongArity, len(args))
 	}
 
-	switch input[0].(type) {
+	value, err := singletonNumber(input)
+	if err != nil {
+		return nil, err
+	}
+	switch number := value.(type) {
 	case system.Integer:
-		// Input type conversion to int32
-		number, err := input.ToInt32()
-		if err != nil {
-			return nil, err
+		if number == math.MinInt32 {
+			return system.Collection{}, nil // the absolute value overflows an Integer
 		}
-		// Absolution number
-		res := math.Abs(float64(number))
-		return system.Collection{system.Integer(res)}, nil
+		if number < 0 {
+			return system.Collection{-number}, nil
+		}
+		return system.Collection{number}, nil
 	case system.Decimal:
-		// Input type conversion to float64
-		number, err := input.ToFloat64()
-		if err != nil {
-			return nil, err
-		}
-		// Absolution number
-		res := math.Abs(number)
-		result := decimal.NewFromFloat(res)
-		return system.Collection{system.Decimal(result)}, nil
+		return system.Collection{system.Decimal(decimal.Decimal(number).Abs())}, nil
 	case system.Quantity:
-		quantity := strings.Split(input[0].(system.Quantity).String(), " ")
-		// Input type conversion
-		f, err := strconv.ParseFloat(quantity[0], 64)
-		if err != nil {
-			return nil, err
-		}
-		// Absolution number
-		res := math.Abs(f)
-		return system.Collection{system.MustParseQuantity(fmt.Sprintf("%f", res), quantity[1])}, nil
+		return system.Collection{number.Abs()}, nil
 	}
 	return nil, errors.New("input is not a number")
 }
@@ -74,14 +59,11 @@ func Ceiling(ctx *expr.Context, input system.Collection, args ...expr.Expression
 	if len(args) != 0 {
 		return nil, fmt.Errorf("%w: received %v arguments, expected 0", ErrWrongArity, len(args))
 	}
-	// Input type conversion to float64
-	number, err := input.ToFloat64()
+	number, err := singletonDecimal(input)
 	if err != nil {
 		return nil, err
 	}
-	// Ceiling number
-	result := math.Ceil(number)
-	return system.Collection{system.Integer(result)}, nil
+	return integerOrEmpty(number.Ceil()), nil
 }
 
 // Exp returns e raised to the power of the input.
@@ -117,14 +99,11 @@ func Floor(ctx *expr.Context, input system.Collection, args ...expr.Expression) 
 	if len(args) != 0 {
 		return nil, fmt.Errorf("%w: received %v arguments, expected 0", ErrWrongArity, len(args))
 	}
-	// Input type conversion to float64
-	number, err := input.ToFloat64()
+	number, err := singletonDecimal(input)
 	if err != nil {
 		return nil, err
 	}
-	// Flooring number
-	result := math.Floor(number)
-	return system.Collection{system.Integer(result)}, nil
+	return integerOrEmpty(number.Floor()), nil
 }
 
 // Ln returns the natural logarithm of the input number.
@@ -280,7 +259,7 @@ func Round(ctx *expr.Context, input system.Collection, args ...expr.Expression) 
 	// Rounding number
 	switch value.(type) {
 	case system.Decimal:
-		res, _ := input[0].(system.Decimal)
+		res, _ := value.(system.Decimal)
 		result := res.Round(precision)
 		return system.Collection{result}, nil
 	case system.Integer:
@@ -332,14 +311,53 @@ func Truncate(ctx *expr.Context, input system.Collection, args ...expr.Expressio
 	if len(args) != 0 {
 		return nil, fmt.Errorf("%w: received %v arguments, expected 0", ErrWrongArity, len(args))
 	}
-	// Input type conversion to float64
-	number, err := input.ToFloat64()
+	number, err := singletonDecimal(input)
 	if err != nil {
 		return nil, err
 	}
-	// Ceiling number
-	result := math.Trunc(number)
-	return system.Collection{system.Integer(result)}, nil
+	return integerOrEmpty(number.Truncate(0)), nil
+}
+
+// singletonNumber returns the Integer, Decimal or Quantity held by a singleton input
+// collection (converting FHIR primitives), and an error for anything else.
+func singletonNumber(input system.Collection) (system.Any, error) {
+	item, err := input.ToSingleton()
+	if err != nil {
+		return nil, err
+	}
+	value, err := system.From(item)
+	if err != nil {
+		return nil, err
+	}
+	switch value.(type) {
+	case system.Integer, system.Decimal, system.Quantity:
+		return value, nil
+	}
+	return nil, errors.New("input is not a number")
+}
+
+// singletonDecimal returns the exact decimal value of a singleton Integer or Decimal input.
+func singletonDecimal(input system.Collection) (decimal.Decimal, error) {
+	value, err := singletonNumber(input)
+	if err != nil {
+		return decimal.Decimal{}, err
+	}
+	switch number := value.(type) {
+	case system.Integer:
+		return decimal.NewFromInt32(int32(number)), nil
+	case system.Decimal:
+		return decimal.Decimal(number), nil
+	}
+	return decimal.Decimal{}, fmt.Errorf("%w: %T to decimal", system.ErrNotConvertible, value)
+}
+
+// integerOrEmpty converts an integral decimal to an Integer collection, or to an empty
+// collection when the value does not fit into 32 bits.
+func integerOrEmpty(value decimal.Decimal) system.Collection {
+	if value.LessThan(decimal.NewFromInt(math.MinInt32)) || value.GreaterThan(decimal.NewFromInt(math.MaxInt32)) {
+		return system.Collection{}
+	}
+	return system.Collection{system.Integer(int32(value.IntPart()))}
 }
 
 func logToBase(number, base float64) float64 {
